@@ -28,6 +28,7 @@ fn main() {
         "parsed" => vh::parsed_cases::run(&opts),
         "scan-vectors" => vh::scan_vectors::run(&opts),
         "parsers" => vh::parser_drive::run(&opts),
+        "stream" => vh::stream::run(&opts),
         "renumber" => vh::renumber_drive::run(&opts),
         other => {
             eprintln!("unknown subcommand {other}");
